@@ -9,6 +9,7 @@ package main
 // not change the verdict on /repo. A control whose target text no longer exists is reported as unavailable.
 
 import (
+	"encoding/json"
 	"fmt"
 	"io"
 	"os"
@@ -215,6 +216,70 @@ func runSeedReplays(repo, verif, prop string, base map[string]bool) []controlOut
 			oc.Obligation = newBad[0]
 			if len(newBad) > 1 {
 				oc.Detail = fmt.Sprintf("+%d more", len(newBad)-1)
+			}
+		}()
+		out = append(out, oc)
+	}
+	return out
+}
+
+// runBenignReplays: the library of behaviour-preserving rewrites (/verif/tools/benign/index.json: renames, hoists,
+// equivalent loop forms — each once false-alarmed or is the correct twin of a seeded bug) is applied to a scratch
+// copy of the CURRENT tree; the property's rules must stay silent.
+func runBenignReplays(repo, verif, prop string, base map[string]bool) []controlOutcome {
+	var out []controlOutcome
+	raw, err := os.ReadFile(filepath.Join(verif, "tools", "benign", "index.json"))
+	if err != nil {
+		return nil
+	}
+	var idx []struct {
+		Name  string   `json:"name"`
+		Patch string   `json:"patch"`
+		Props []string `json:"props"`
+	}
+	if err := json.Unmarshal(raw, &idx); err != nil {
+		return []controlOutcome{{Name: "benign library", Kind: "benign-patch", Outcome: "unavailable", Detail: err.Error()}}
+	}
+	for _, e := range idx {
+		use := false
+		for _, p := range e.Props {
+			if p == prop {
+				use = true
+			}
+		}
+		if !use {
+			continue
+		}
+		oc := controlOutcome{Name: "benign " + e.Name, Kind: "benign-patch"}
+		tmp, err := os.MkdirTemp("", "yaccverif-benign-")
+		if err != nil {
+			oc.Outcome, oc.Detail = "unavailable", err.Error()
+			out = append(out, oc)
+			continue
+		}
+		func() {
+			defer os.RemoveAll(tmp)
+			if err := copyTree(repo, tmp); err != nil {
+				oc.Outcome, oc.Detail = "unavailable", err.Error()
+				return
+			}
+			cmd := exec.Command("git", "apply", "--whitespace=nowarn", filepath.Join(verif, "tools", "benign", e.Patch))
+			cmd.Dir = tmp
+			cmd.Env = append(os.Environ(), "GIT_DIR=/nonexistent", "GIT_CEILING_DIRECTORIES="+filepath.Dir(tmp))
+			if b, err := cmd.CombinedOutput(); err != nil {
+				oc.Outcome, oc.Detail = "unavailable", "patch does not apply to the current tree: "+firstLine(string(b))
+				return
+			}
+			newBad, oc2, det := evalScratch(tmp, prop, base)
+			if oc2 != "" {
+				oc.Outcome, oc.Detail = oc2, det
+				return
+			}
+			if len(newBad) == 0 {
+				oc.Outcome = "silent"
+			} else {
+				oc.Outcome = "FALSE-ALARM"
+				oc.Obligation = newBad[0]
 			}
 		}()
 		out = append(out, oc)
